@@ -226,6 +226,26 @@ def loop_tail_shapes(rng, n, yields=False, family=None):
             lambda: [N("wait", p=N("lit", bs=b"#", form="s")), N("break", label=None)],
             lambda: [N("wait", p=N("lit", bs=b"#", form="s")), N("if", branches=[(cond(), [N("break", label=None)])], orelse=None)],
         ]
+        if family == "yield-chain":
+            # a yield that ends a block, directly followed by another yield / action after the block: the states behind a yield only hold
+            # the actions that follow it (they look like removable dummies to the optimiser)
+            lit = lambda b: N("lit", bs=b, form="s")
+            inner = rng.choice([
+                lambda: [N("case", greedy=False, clauses=[N("clause", preds=["else"], body=[], prio=None), N("clause", preds=[lit(b"a\n")], body=[N("hook", name="h")], prio=None)])],
+                lambda: [N("try", body=[L(b"ab")], reasons=["nomatch"], handler=[])],
+                lambda: [N("try", body=[L(b"a"), N("hook", name="g")], reasons=None, handler=[N("hook", name="h")])],
+                lambda: []])()
+            tail = rng.choice([lambda: [N("yield", code="YB")], lambda: [N("yield", code="YB"), N("hook", name="t")], lambda: [N("hook", name="t"), N("yield", code="YB")],
+                               lambda: [N("yield", code="YB"), N("yield", code="YA")], lambda: [N("assign", var="n", e=num(5)), N("yield", code="YB"), L(b"!")]])()
+            blk = rng.choice([
+                lambda: N("case", greedy=False, clauses=[N("clause", preds=[lit(b"1")], body=inner + [N("yield", code="YA")], prio=None), N("clause", preds=[lit(b"2")], body=[N("yield", code="YA")], prio=None)]),
+                lambda: N("try", body=[L(b"1")] + inner + [N("yield", code="YA")], reasons=["nomatch"], handler=[N("yield", code="YA")]),
+                lambda: N("if", branches=[(N("bin", op="==", a=var("n"), b=num(0)), [L(b"1")] + inner + [N("yield", code="YA")])], orelse=[N("yield", code="YA")])])()
+            body = [L(b"<"), blk] + tail
+            outs = [N("out", name="n", typ="int", signed=None, width=None, default=0), N("out", name="m", typ="int", signed=None, width=None, default=0),
+                    N("out", name="s", typ="str", size=3, default=None)]
+            out.append(N("prog", outs=outs, hooks=["h", "g", "t"], fcodes=[], ycodes=["YA", "YB"], macros=[], body=body, args=["-fyield-support"]))
+            continue
         shape = 0.95 if family == "append-yield" else rng.random()
         if shape < 0.75:
             lp = N("loop", label=None, body=rng.choice(heads)() + rng.choice(tails)())
@@ -302,6 +322,7 @@ def run(ctx: Ctx):
     ctx.cov.update({"programs_generated": gen_n, "programs_accepted": acc_n})
     acc_n += add_shapes(ctx, rng, pool, loop_tail_shapes(rng, 24 if quick else 240) + loop_tail_shapes(rng, 12 if quick else 120, yields=True), "loop_tail_shapes_accepted")
     acc_n += add_shapes(ctx, rng, pool, loop_tail_shapes(rng, 8 if quick else 80, yields=True, family="append-yield"), "append_yield_shapes_accepted", levels=("-O0", "-O2", "-O3", "-O3"))
+    acc_n += add_shapes(ctx, rng, pool, loop_tail_shapes(rng, 10 if quick else 100, yields=True, family="yield-chain"), "yield_chain_shapes_accepted", levels=("-O0", "-O3", "-O3"))
     ctx.cov["programs_accepted"] = acc_n
     ctx.extra["node_kinds_in_accepted"] = kinds
     run_pool(ctx, rng, quick, pool, "c01")
